@@ -73,7 +73,7 @@ impl Agg {
         if cx.discard {
             self.discards += 1;
         }
-        let n = capacity_of(case);
+        let n = if case.engine == Engine::Wide { 300 } else { capacity_of(case) };
         if nontrivial(armed, &cx.st, n) {
             let fresh = self.nt.insert(case.hash64());
             if fresh && self.samples.len() < 2 && (n >= 2 || self.evaluations > 200) && case.ops.len() <= 24 {
@@ -279,7 +279,9 @@ fn strategy(prop: Prop, camp: Campaign) -> impl Strategy<Value = Case> {
             None => cap % l.len() as u8,
         };
         let mut c = Case { engine: camp.engine, prop, kind, cap, cap2, univ: 1, mode, fuse: -1, ops, named: vec![] };
-        if matches!(camp.engine, Engine::SetAlg | Engine::MapEq) {
+        if matches!(camp.engine, Engine::Wide) {
+            c.univ = 255;
+        } else if matches!(camp.engine, Engine::SetAlg | Engine::MapEq) {
             c.cap %= 5;
             let n = mmv::case::CAPS2[c.cap as usize].max(mmv::case::CAPS2[c.cap2 as usize % 5]);
             c.univ = univ_for(n, us).min(12);
@@ -449,7 +451,7 @@ fn write_replay(prop: Prop, case: &Case, msg: &str) -> PathBuf {
     let dir = verif_dir().join("replays");
     let _ = std::fs::create_dir_all(&dir);
     let path = dir.join(format!("{}-{:016x}.case", prop.name(), case.hash64()));
-    let mut comments = vec![format!("violation: {msg}"), format!("capacity N = {}", capacity_of(case))];
+    let mut comments = vec![format!("violation: {msg}"), format!("capacity N = {}", if case.engine == Engine::Wide { 300 } else { capacity_of(case) })];
     comments.extend(trace_of(case, prop));
     let _ = std::fs::write(&path, to_text_named(case, &comments));
     path
@@ -691,7 +693,7 @@ fn write_evidence(prop: Prop, tier: &str, seed: u64, agg: &Agg, wall: f64, corpu
         ("evaluations".into(), J::N(agg.evaluations as f64)),
         ("generated_cases".into(), J::N(agg.cases as f64)),
         ("distinct_nontrivial".into(), J::N(agg.nt.len() as f64)),
-        ("rule".into(), J::S(rule_text(prop).into())),
+        ("rule".into(), J::S(format!("{}{}", rule_text(prop), if notes.iter().any(|n| n.starts_with("wide-over-255")) { "; additionally model-based histories over Map<u16,u32,300> / Set<u16,300> prefilled to 256..300 entries (non-trivial there = at least one op executed while more than 255 entries were stored)" } else { "" }))),
         ("samples".into(), J::A(samples)),
         ("armed_assertions_evaluated".into(), J::N(agg.checks as f64)),
         ("assertions_failed_but_owned_by_other_properties".into(), J::N(agg.foreign as f64)),
